@@ -119,49 +119,12 @@ def first_token(t):
 DELIMS_OPEN = {"ParenBegin", "BlockBegin", "ArrayBegin"}
 DELIMS_CLOSE = {"ParenEnd", "BlockEnd", "ArrayEnd"}
 LISTS = {"ParamList", "ArgList", "TupleExpr", "ArrayExpr", "TupleType", "RecordType", "TuplePattern", "RecordPattern"}
-WORD = re.compile(r'[A-Za-z0-9_"]')
 
 
 # ------------------------------------------------------------------------------------------------
 # class predicates of the known findings (evaluated on the real green tree of the SOURCE)
-# each returns True when the source belongs to the class
+# (the printer defects F6 F6t FM1..FM9 are repaired in cst_print.rs; their witnesses are regression inputs now)
 # ------------------------------------------------------------------------------------------------
-def cls_match_expr(t, toks):
-    return any(x[0] == 'N' and x[1] == "MatchExpr" for x in walk(t))
-
-
-def cls_type_decl(t, toks):
-    return any(x[0] == 'N' and x[1] == "TypeDecl" for x in walk(t))
-
-
-def cls_if_cond_word(t, toks):
-    """an `if` whose condition starts with a word-like token (no `(`): printed `ifcond`"""
-    for x in walk(t):
-        if x[0] == 'N' and x[1] == "IfExpr":
-            seen_if = False
-            for c in x[2]:
-                if c[0] == 'T' and c[1] == "If":
-                    seen_if = True
-                    continue
-                if seen_if:
-                    ft = first_token(c)
-                    if ft is not None and WORD.match(ft[2][:1] or " "):
-                        return True
-                    break
-    return False
-
-
-def cls_lambda_no_params(t, toks):
-    """`| |` printed as `||` (the OpOr token)"""
-    for x in walk(t):
-        if x[0] == 'N' and x[1] == "LambdaExpr":
-            ks = [c for c in x[2]]
-            for a, b in zip(ks, ks[1:]):
-                if a[0] == 'T' and b[0] == 'T' and a[1] == b[1] == "LambdaArgBeginEnd":
-                    return True
-    return False
-
-
 def list_items(x):
     """children of a delimiter-list node between the delimiters, split at commas"""
     items, cur, seen_open = [], [], False
@@ -180,94 +143,6 @@ def list_items(x):
     if cur:
         items.append(cur)
     return items
-
-
-def cls_multi_node_list_item(t, toks):
-    """an item of a (..)/[..]/{..} list printed by print_grouped_list consists of more than one green child
-    (typed / defaulted parameter, record-pattern field, record-type field, assignment in a tuple):
-    every child is printed as an item of its own, separated by commas"""
-    for x in walk(t):
-        if x[0] == 'N' and (x[1] in LISTS or x[1] == "MacroExpansion"):
-            if any(len(it) > 1 for it in list_items(x)):
-                return True
-    return False
-
-
-def dropped_trivia_tokens(t):
-    """tokens whose trivia the printer never looks up (or looks up only partly)"""
-    out = []
-
-    def go(x, parent):
-        if x[0] == 'T':
-            return
-        k = x[1]
-        for c in x[2]:
-            if c[0] == 'T':
-                if c[1] == "Comma" and k in LISTS | {"LambdaExpr", "RecordExpr", "MacroExpansion", "UseTargetMultiple"}:
-                    out.append((c, "both"))
-                elif k == "BlockExpr" and c[1] == "BlockBegin":
-                    out.append((c, "lead"))
-                elif k == "BlockExpr" and c[1] == "BlockEnd":
-                    out.append((c, "both"))
-                elif k == "UseTargetMultiple" and c[1] in ("BlockBegin", "BlockEnd"):
-                    out.append((c, "both"))
-            else:
-                go(c, x)
-    go(t, None)
-    return out
-
-
-def cls_comment_on_unprinted_trivia(t, toks):
-    """a comment sits in the trivia of a token that the printer re-creates from a constant (`,` of every list, `{`/`}` of a
-    block, `{`/`}`/`,` of a use-list) instead of emitting it with its trivia"""
-    for tok, which in dropped_trivia_tokens(t):
-        tr = tok[3] if which == "lead" else tok[3] + tok[4]
-        if any(z[0] in 'LB' for z in tr):
-            return True
-    return False
-
-
-def cls_leading_block_comment(t, toks):
-    """a comment before the first syntax token that is NOT followed by a line break is emitted twice (once by
-    extract_file_leading_comments, once as leading trivia of the first token)"""
-    ts = tokens_of(t)
-    return bool(ts) and any(z[0] in 'LB' for z in ts[0][3])
-
-
-def cls_if_then_open(t, toks):
-    """`if c <linebreak> (..)` / `[..]`: the then-branch starts with `(` or `[` and is separated from the condition only by
-    the softline, which the flat layout prints as a space: `if(c) (a, b)` re-parses as the call `(c)(a, b)`"""
-    for x in walk(t):
-        if x[0] == 'N' and x[1] == "IfExpr":
-            kids = [c for c in x[2] if not (c[0] == 'T' and c[1] in ("If", "Else"))]
-            if len(kids) >= 2:
-                ft = first_token(kids[1])
-                if ft is not None and ft[1] in ("ParenBegin", "ArrayBegin"):
-                    return True
-    return False
-
-
-def cls_single_tuple_trailing_comma(t, toks):
-    """`(a,)`: the printer drops the trailing comma that makes it a tuple"""
-    for x in walk(t):
-        if x[0] == 'N' and x[1] == "TupleExpr":
-            its = list_items(x)
-            ncommas = sum(1 for c in x[2] if c[0] == 'T' and c[1] == "Comma")
-            if len(its) == 1 and ncommas >= 1:
-                return True
-    return False
-
-
-def cls_nested_unary(t, toks):
-    """`- -x` (a sign applied to a signed operand) is printed `--x`, which the parser rejects (consecutive operators)"""
-    for x in walk(t):
-        if x[0] == 'N' and x[1] == "UnaryExpr":
-            kids = x[2]
-            if len(kids) >= 2 and kids[0][0] == 'T' and kids[0][1] in ("OpMinus", "OpSum"):
-                ft = first_token(kids[1])
-                if kids[1][0] == 'N' and kids[1][1] == "UnaryExpr" and ft is not None and ft[1] in ("OpMinus", "OpSum"):
-                    return True
-    return False
 
 
 def cls_tuple_by_nested_trailing_comma(t, toks):
@@ -297,29 +172,9 @@ def cls_tuple_by_nested_trailing_comma(t, toks):
     return False
 
 
-def cls_if_branch_assignment(t, toks):
-    """an assignment as condition / branch of an `if`: the green tree holds `x` and `= 1` as two children, print_if_expr keeps
-    the first and silently drops the second (no parse error: the program changes)"""
-    for x in walk(t):
-        if x[0] == 'N' and x[1] == "IfExpr" and any(c[0] == 'N' and c[1] == "AssignExpr" for c in x[2]):
-            return True
-    return False
-
-
 # symptoms: parse (output has parse errors) ast (AST differs) comments idem tokens model
 ALL = {"parse", "ast", "comments", "idem", "tokens", "expr", "fmt-err"}
 CLASSES = {
-    "match-expression": (cls_match_expr, ALL),
-    "type-declaration": (cls_type_decl, ALL),
-    "if-condition-without-parenthesis": (cls_if_cond_word, ALL - {"comments"}),
-    "lambda-without-parameters": (cls_lambda_no_params, ALL - {"comments"}),
-    "multi-node-list-item": (cls_multi_node_list_item, ALL - {"comments"}),
-    "comment-on-reconstructed-token": (cls_comment_on_unprinted_trivia, {"comments"}),
-    "comment-before-first-token-on-its-line": (cls_leading_block_comment, {"comments", "idem"}),
-    "if-then-branch-starts-with-bracket": (cls_if_then_open, ALL - {"comments"}),
-    "one-element-tuple": (cls_single_tuple_trailing_comma, ALL - {"comments"}),
-    "sign-of-signed-operand": (cls_nested_unary, ALL - {"comments"}),
-    "assignment-as-if-branch": (cls_if_branch_assignment, ALL),
     "tuple-by-nested-trailing-comma": (cls_tuple_by_nested_trailing_comma, {"ast", "expr", "idem"}),
 }
 
@@ -862,14 +717,19 @@ def unesc(s):
 
 
 def leading_comments(toks):
-    """cst_print.rs extract_file_leading_comments: every comment before the first syntax token, each followed by a newline"""
-    out = []
+    """cst_print.rs extract_file_leading_comments: the comments before the first syntax token that are followed by a line
+    break before that token (the pre-parser attaches them to no token), each followed by a newline; all comments when the
+    text has no syntax token"""
+    out, pending = [], []
     for t in toks:
         if t[0] == 'T':
-            break
+            return "".join(out)
         if t[0] in "LB":
-            out.append(t[1:] + "\n")
-    return "".join(out)
+            pending.append(t[1:] + "\n")
+        elif t == "N":
+            out += pending
+            pending = []
+    return "".join(out + pending)
 
 
 def model_requests(ans):
@@ -976,24 +836,28 @@ def relayout(rng, toks):
 # witnesses of the findings: (class, source, what the REAL formatter must show for the finding to be alive)
 # (the same sources are the witnesses of the `_refuted` theorems in Props/C14.v, see Fmt/Witness.v)
 # ------------------------------------------------------------------------------------------------
-def _w_if_then(ans):
-    by = {(r["w"], r["i"]): r for r in ans["runs"]}
-    return (not by[(200, 4)]["ast_same"] or by[(200, 4)]["o"]["cst_errs"] > 0) and by[(1, 4)]["ast_same"]
-
-
 WITNESSES = [
-    ("match-expression", "fn dsp(){ let x = 1\n match x { 0 => 1.0, _ => 2.0 } }\n", lambda a: all("matchx{" in r.get("out", "") for r in a["runs"])),
-    ("type-declaration", "type T = A | B(float)\nfn dsp(){ 1.0 }\n", lambda a: all("typeT=A|B(float)" in r.get("out", "") for r in a["runs"])),
-    ("if-condition-without-parenthesis", "if gate {x}", lambda a: all(r.get("out", "").startswith("ifgate") for r in a["runs"])),
-    ("lambda-without-parameters", "| | x", lambda a: all(r.get("out", "").startswith("|| x") for r in a["runs"])),
-    ("multi-node-list-item", "fn f(x:float){x}", lambda a: all("(x," in r.get("out", "") for r in a["runs"])),
-    ("comment-on-reconstructed-token", "(a, /* c */ b)", lambda a: all("/* c */" not in r.get("out", "") for r in a["runs"])),
-    ("comment-before-first-token-on-its-line", "/* a */ fn f(){ 1 }\n", lambda a: all(r.get("out", "").count("/* a */") == 2 for r in a["runs"])),
-    ("if-then-branch-starts-with-bracket", "if (c)\n (a, b) else d", _w_if_then),
-    ("one-element-tuple", "(a,)", lambda a: all(r.get("out", "").strip() == "(a)" for r in a["runs"])),
-    ("sign-of-signed-operand", "- -x", lambda a: all(r.get("out", "").startswith("--x") for r in a["runs"])),
     ("tuple-by-nested-trailing-comma", "([a,])", lambda a: all(r.get("out", "").strip() == "([a])" and not r["ast_same"] for r in a["runs"])),
-    ("assignment-as-if-branch", "if (a) x = 1 else y", lambda a: all("1" not in r.get("out", "1") for r in a["runs"])),
+]
+
+# witnesses of the repaired printer defects (F6 F6t FM1..FM9): every fact must hold on them now
+REPAIRED = [
+    "fn dsp(){ let x = 1\n match x { 0 => 1.0, _ => 2.0 } }\n",
+    "type T = A | B(float)\nfn dsp(){ 1.0 }\n",
+    "type alias Freq = float\ntype rec L = Nil | Cons(float, L)\nfn dsp(){ 1.0 }\n",
+    "if gate {x}",
+    "| | x",
+    "fn f(x:float){x}",
+    "fn f(x:float, y = 2.0)->float{ x }",
+    "fn f(){ let {x = p, y = q} = r\n x }",
+    "(a, /* c */ b)",
+    "fn f(){ 1 } // done\n// about g\nfn g(){ 2 }\n// end\n",
+    "/* a */ fn f(){ 1 }\n",
+    "if (c)\n (a, b) else d",
+    "if (c)\n [a] else [b]",
+    "(a,)",
+    "- -x",
+    "if (a) x = 1 else y",
 ]
 
 
@@ -1031,6 +895,8 @@ def run(ck):
     for cls, src, _ in WITNESSES:
         w_idx[cls] = len(S)
         S.append(("witness:" + cls, src, None))
+    for src in REPAIRED:
+        S.append(("corpus", src, None))
     cdir = os.path.join(VERIF, "corpus", "C14")
     for f in sorted(glob.glob(os.path.join(cdir, "*.mmm"))):
         S.append(("corpus", open(f, errors="replace", newline="").read(), None))
@@ -1206,7 +1072,7 @@ def run(ck):
                     if "idem" not in expl:
                         idem_mismatch.append((o, s, p, run_["w"], run_["i"]))
             for j in unsafe_srcs:
-                if "if-then-branch-starts-with-bracket" not in classes_of(res[j]["in"]):
+                if not classes_of(res[j]["in"]):
                     tot["unsafe_outside"] += 1
 
         # ---- parser line-break rule (hypothesis of C14_breaks_safe_same_parse_partial) on the real parser ----
